@@ -347,6 +347,30 @@ def check_S(S, p):
                 S.viol("C18:chunk:S:spectrum", "[S %r stdin first read %d] rc %s stdout %r (baseline %r)" % (sub, first, r.rc, r.out[:80], b.out[:80]),
                        {"level": "S", "argv": sub, "input_b64": E.b64(spec_in), "first": first})
             S.case(key="%s|Ss|%s|%d" % (digest(spec_in), sub, first), nontrivial=True)
+        # a failing read() at every (strided) offset of the spectrum input, incl. inside and right after the last value
+        nin = len(spec_in)
+        offs = sorted(set(list(range(0, nin, max(1, stride // 3))) + list(range(max(0, nin - 12), nin))))
+        for off in offs:
+            for via in (("stdin",) if off % 2 else ("path",)):
+                env = {"FAILIO_READ_FAIL_AT": str(off), "FAILIO_READ_ERRNO": str([5, 104, 116][off % 3]), "FAILIO_READ_REST": str([0, 3][off % 2])}
+                if via == "stdin":
+                    env["FAILIO_READ_FD"] = "0"
+                    r, log = shim_run(sub, stdin_bytes=spec_in, env_extra=env)
+                else:
+                    pth = E.tmpfile(spec_in, ".spec")
+                    env["FAILIO_READ_PATH"] = os.path.basename(pth)
+                    r, log = shim_run(sub, path=pth, env_extra=env)
+                S.count("S_runs")
+                delivered = any(l.startswith("fault r") for l in log)
+                if delivered:
+                    S.count("S_read_faults_delivered")
+                    S.count("S_spectrum_read_faults")
+                    S.observe("S_spectrum_fault_offsets", off)
+                    if r.rc == 0 or r.out:
+                        S.viol("C18:read-fault:S:spectrum", "[S %r via %s, %d-byte %s input] read() failed with errno %s at offset %d but the run exited %s with stdout %r" % (
+                            sub, via, nin, "text" if spec_in[:1] == b"#" else "npy", env["FAILIO_READ_ERRNO"], off, r.rc, r.out[:80]),
+                            {"level": "S", "argv": sub, "input_b64": E.b64(spec_in), "env": env, "replay": __import__("vf.replay", fromlist=["x"]).exit_status(r, True)})
+                S.case(key="%s|Srf|%s|%d" % (digest(spec_in), sub, off), nontrivial=delivered)
         for wmax in (1, 3, 7):
             r, log = shim_run(sub, stdin_bytes=spec_in, env_extra={"FAILIO_WRITE_FD": "1", "FAILIO_WRITE_MAX": str(wmax)})
             S.count("S_runs")
